@@ -366,6 +366,16 @@ func r123(c *Ctx, rule string) {
 		}
 		return false
 	}
+	// the restore itself never writes the file it is reading back: a snapshot taken while only some of the saved services
+	// are installed would, if the process dies then, leave a VALID file that has lost the rest
+	restore := c.method("Router", "RestoreLastSavedState")
+	writesDuringRestore := false
+	for _, f := range c.reachableStatic(restore) {
+		if f == save {
+			writesDuringRestore = true
+		}
+	}
+	c.ob(rule, "RestoreLastSavedState/takes-no-snapshot", restore.Pos(), !writesDuringRestore, true, "restoring must not (transitively) call saveStateSnapshot: the file is complete before the restore and must stay so until it is")
 	router := c.named("Router")
 	n := 0
 	for _, fn := range c.proxyFuncs() {
